@@ -72,6 +72,20 @@ def close_libm(spec, a, b):
         return bool(np.all(np.abs(a[ok] - b[ok]) <= 1e-12 * (1 + np.abs(a[ok]) + np.abs(b[ok])) * (1 + 1 / lam_eff(spec))))
 
 
+def drift_slack(kr, cpos, f):
+    """(nf, m) admissible deviation of the functional-drift rows: the target coordinates the drift functions see come out of
+    anisometrize(isometrize(pos)), whose last bits depend on how the products are blocked (whole array / per chunk / BLAS kernel);
+    8 ulp of every coordinate carried through the functions in both directions, plus 1e-12 of the row scale"""
+    m = f.shape[1]
+    d = 8 * np.spacing(np.abs(cpos))
+    with np.errstate(all="ignore"):
+        fp = np.array([np.broadcast_to(fn(*(cpos + d)), (m,)) for fn in kr.drift_functions], dtype=float)
+        fm = np.array([np.broadcast_to(fn(*(cpos - d)), (m,)) for fn in kr.drift_functions], dtype=float)
+    dev = np.maximum(np.abs(fp - f), np.abs(fm - f))
+    dev = np.where(np.isfinite(dev), dev, 0.0)
+    return 4 * dev + 1e-12 * np.abs(f).max(axis=1, keepdims=True, initial=0.0)
+
+
 def correspondence(ctx, on_data=False):
     with warnings.catch_warnings():   # out-of-range / dimension warnings of generated inputs are expected
         warnings.simplefilter("ignore")
@@ -103,7 +117,13 @@ def _correspondence(ctx, on_data=False):
         try:
             with warnings.catch_warnings():
                 warnings.simplefilter("ignore")
-                kr = kc.build(cfg, capture=cap)
+                # every eighth (Cartesian) case uses a model whose variance is NOT its raw intensity (TPL family with var_factor != 1,
+                # user-defined var_factor): the sill the Lean side is given is the REPORTED variance + nugget
+                vfm = None
+                if t % 8 == 5 and not cfg["latlon"]:
+                    vfm = kc.varfactor_model(np.random.RandomState(ctx.seed + 50500 + t), cfg, nugget=cfg.get("nugget"))[0]
+                    dist["model:var_factor!=1"] = dist.get("model:var_factor!=1", 0) + 1
+                kr = kc.build(cfg, capture=cap, model=vfm)
                 with kc.capture_kernel(store):
                     only_mean = bool(rng.rand() < 0.1)
                     ret_var = bool(rng.rand() < 0.8)
@@ -168,7 +188,8 @@ def _correspondence(ctx, on_data=False):
         e = np.asarray(cfg["ext"][1], dtype=float).reshape(kr.ext_drift_no, m) if kr.ext_drift_no else np.zeros((0, m))
         ops.append(dict(op="krige_rhs", **L, m=m, only_mean=only_mean, c=fbits(c), f=fbits(f), e=fbits(e)))
         rhs_real = np.hstack([s[2] for s in store]) if store else np.zeros((size, 0))
-        meta.append(("RHS", rhs_real, cfg, key))
+        fslack = drift_slack(kr, cpos, f) if kr.int_drift_no > 0 else np.zeros((0, m))
+        meta.append(("RHS", (rhs_real, fslack), cfg, key))
         # 2a. right-hand sides from LAGS: the Lean model decides between the plain and the nugget-aware covariance (exact
         #     flag of the configuration; sill inside the isclose band of lag 0) from the lags and the plain covariances
         lag = cdist(kr._krige_pos.T, iso_pos.T)
@@ -177,7 +198,7 @@ def _correspondence(ctx, on_data=False):
         ops.append(dict(op="krige_rhs_lag", **L, m=m, only_mean=only_mean, exact=bool(cfg["exact"]),
                         sill=fbits([float(mdl.var) + float(mdl.nugget)])[0], d=fbits(lag), cv=fbits(mdl.covariance(lag)),
                         f=fbits(f), e=fbits(e)))
-        meta.append(("RHSLAG", rhs_real, cfg, f"exact={cfg['exact']}|{ttag}|nugget{'>0' if mdl.nugget > 0 else '=0'}"))
+        meta.append(("RHSLAG", (rhs_real, fslack), cfg, f"exact={cfg['exact']}|{ttag}|nugget{'>0' if mdl.nugget > 0 else '=0'}"))
         # 3. data preparation from the RAW ingredients of the configuration (values, trend and mean evaluated by the
         #    harness at the conditioning points, normaliser kind + parameters): model of `_krige_cond` end to end
         trend_c = kc.eval_spec(cfg["trend"], cfg["cond_pos"], sc)
@@ -195,7 +216,7 @@ def _correspondence(ctx, on_data=False):
             valn = dtr.copy() if nz is None else np.asarray(nz.normalize(dtr), dtype=float)
         cs = m if cfg["chunk"] is None else cfg["chunk"]
         ops.append(dict(op="krige_call", **L, pnt=m, cs=int(cs), M=fbits(kr._krige_mat), rhs=fbits(rhs_real),
-                        valn=fbits(valn), mean=fbits(mean_c), sill=fbits([kr.model.sill])[0]))
+                        valn=fbits(valn), mean=fbits(mean_c), sill=fbits([float(kr.model.var) + float(kr.model.nugget)])[0]))
         meta.append(("CALL", (out, ret_var and not only_mean, cond_real), cfg, key))
         if len(samples) < 4:
             samples.append({"variant": cfg["variant"], "layout": L, "targets": m, "chunk": cfg["chunk"], "exact": cfg["exact"],
@@ -210,8 +231,15 @@ def _correspondence(ctx, on_data=False):
             lean = np.array([unbits(x) for x in r]).reshape(real.shape)
             ok = np.array_equal(lean, real)
         elif kind in ("RHS", "RHSLAG"):
+            real, fslack = real
             lean = np.array([unbits(x) for x in r]).reshape(real.shape) if real.size else real
-            ok = np.array_equal(lean, real)
+            # covariance rows, the unbiasedness row and the external-drift rows bit-for-bit; the functional-drift rows (user / polynomial
+            # functions of back-transformed target coordinates: the harness evaluates them on its own copy of anisometrize(isometrize(pos)))
+            # within the last-bit slack of those coordinates carried through the functions (+ 1e-12 of the row scale)
+            lo, hi = real.shape[0] - o["nf"] - o["ne"], real.shape[0] - o["ne"]
+            rest = np.r_[0:lo, hi:real.shape[0]]
+            ok = lean.shape == real.shape and np.array_equal(lean[rest], real[rest]) and \
+                bool(np.all(np.abs(lean[lo:hi] - real[lo:hi]) <= fslack[:, : real.shape[1]]))
         elif kind == "PREP":
             lean = unbits(r)
             ok = real is None or close_libm(cfg["norm"], lean, real)
@@ -549,13 +577,15 @@ def _search(ctx, deep=False):
         m = cfg["pos"].shape[1]
         f2, v2 = kr(cfg["pos"], chunk_size=1, post_process=False, store=False, **({"ext_drift": cfg["ext"][1]} if cfg["ext"] else {}))
         ev += 1
-        if not (np.array_equal(f2, fld) and np.array_equal(v2, var)):
+        # (identical up to the last bits: blocked products / BLAS kernels may differ between chunk shapes; 1e-10 of the value scale)
+        same = lambda a, b: np.shape(a) == np.shape(b) and np.allclose(a, b, rtol=0, atol=1e-10 * (1 + np.abs(b).max(initial=0.0)), equal_nan=True)      # noqa
+        if not (same(f2, fld) and same(v2, var)):
             viol.append({"key": "krige:chunk-size", "what": "result depends on chunk size", "case": cdesc})
         perm = rng.permutation(m)
         kw = {"ext_drift": cfg["ext"][1][:, perm]} if cfg["ext"] else {}
         f3, v3 = kr(cfg["pos"][:, perm], chunk_size=cfg["chunk"], post_process=False, store=False, **kw)
         ev += 1
-        if not (np.array_equal(f3, fld[perm]) and np.array_equal(v3, var[perm])):
+        if not (same(f3, fld[perm]) and same(v3, var[perm])):
             viol.append({"key": "krige:target-order", "what": "result depends on the order of target points", "case": cdesc})
         n = cfg["cond_pos"].shape[1]
         cperm = rng.permutation(n)
@@ -604,7 +634,16 @@ def _search(ctx, deep=False):
     viol = mv[:2] + viol
     ev += mev
     hsum += f"; {mev} Krige.mesh calls (meshio point / cell data, any `direction` selection) against the direct call at the selected coordinates"
-    return {"evaluations": ev, "violations": viol[:8], "distribution": {"compared": ctags, "not_compared": rejected},
+    # wave 6: (1) the conditions are the VALUES given at set time (caller-owned containers modified in place afterwards), (2) geometry
+    # changes through EVERY setter after first use + the documented refresh, (3) models whose variance is not their raw intensity
+    aev, av, asum = kc.search_caller_mutation(np.random.RandomState(ctx.seed + 5521), ctx.scale(70, 500) * (2 if deep else 1))
+    gev, gv, gsum = kc.search_geometry_setters(np.random.RandomState(ctx.seed + 5531), ctx.scale(70, 500) * (2 if deep else 1))
+    vev, vv, vsum = kc.search_var_factor(np.random.RandomState(ctx.seed + 5541), ctx.scale(40, 300) * (2 if deep else 1))
+    ev += aev + gev + vev
+    pristine = [v for v in av if kc.ALIAS_PRISTINE.match(v["key"])]         # aliasing of cond_err / ext_drift arrays (finding AL1): always listed
+    viol = ([v for v in av if not kc.ALIAS_PRISTINE.match(v["key"])][:3] + gv[:2] + vv[:2] + viol)[:8] + pristine[:4]
+    hsum += "; " + asum + "; " + gsum + "; " + vsum
+    return {"evaluations": ev, "violations": viol, "distribution": {"compared": ctags, "not_compared": rejected},
             "summary": "real Krige variants (+ generic class; identity and 6 non-identity normalizers x constant/callable mean x trend: "
                        f"{len(tags)} combinations) vs an independent numpy solve of the kriging system on independently prepared data, raw and "
                        "post-processed at every target; only_mean/get_mean; chunk size, target order, conditioning order, constants, mesh type; "
